@@ -169,7 +169,7 @@ def run_case(case):
                                 **dict(cfg, cuts=case["cuts"], mode=case["append_mode"], **(prob[1] if prob else {}), problem=prob[0] if prob else None))
                     # deterministic content (everything but the random noise realisation) equals the single-session file event for event
                     for k, (a, b) in enumerate(zip(base, got)):
-                        for key in ("energies", "kinds", "ids", "vertices", "weights", "triggered", "rays", "comps"):
+                        for key in ("energies", "kinds", "ids", "vertices", "weights", "triggered", "rays", "comps"):      # not "details": the interaction draws of two separate writes differ
                             v.check(h5._norm(a[key]) == h5._norm(b[key]), "append-session file == single-session file, event for event", event=k, field=key, cuts=case["cuts"], **cfg)
         else:
             from pyrex.generation import FileGenerator
